@@ -127,6 +127,8 @@ def pv_cfg(tn, td, mode, maxedits, nrandom, maxperturb=0, maxpieces=4, emit=True
 def export(run, name, tn, td, mode, maxedits, nrandom, maxperturb=0, simulate=None, cap=None, rng=None, keep=None, workers=8, style="plain"):
     """Scenarios = the distinct maps TLC reaches (VIEW hides the edit counter).  Returns (scenarios, tlc result)."""
     args = ["-seed", str(C.seed() + 1)]
+    if simulate:
+        args += ["-depth", str(maxedits + 1)]
     r = C.tlc("PretextView", pv_cfg(tn, td, mode, maxedits, nrandom, maxperturb, style=style), run.dir, name=name, workers=workers, timeout=2400, args=args,
               simulate=simulate, heap="6g")
     if simulate is None:
